@@ -79,6 +79,36 @@ impl Harness {
         }
     }
 
+    /// Messages that mean something to the session in some state (answers to its requests,
+    /// requests of a peer): whatever they make the session do, the byte accounting goes on.  A
+    /// session may answer some of them with an error in some states; the history then ends unjudged.
+    fn semantic_filler(&mut self, rng: &mut Rng) -> Vec<u8> {
+        use super::sessprep::{command, connect_cmd, status_obj};
+        use crate::refs::amf::{self, V};
+        let (m, msid): (RMsg, u32) = if self.kind == "client" {
+            let tx = *rng.pick(&[1.0f64, 1.0, 2.0, 3.0, 999.0]);
+            match rng.below(5) {
+                0 => (command("_error", tx, V::Null, vec![status_obj("error", "NetConnection.Connect.Rejected", "no")]), 0),
+                1 => (command("_result", tx, amf::obj(vec![("fmsVer", amf::s("FMS/3,0,1,123"))]), vec![status_obj("status", "NetConnection.Connect.Success", "ok")]), 0),
+                2 => (command("_result", tx, V::Null, vec![amf::num(5.0)]), 0),
+                3 => (command("onStatus", 0.0, V::Null, vec![status_obj("status", *rng.pick(&["NetStream.Play.Start", "NetStream.Publish.Start", "NetStream.Play.Reset", "Unknown.Code"]), "x")]), 5),
+                _ => (command("onBWDone", 0.0, V::Null, vec![amf::num(8192.0)]), 0),
+            }
+        } else {
+            match rng.below(7) {
+                0 => (connect_cmd(1.0, "live"), 0),
+                1 => (command("createStream", 2.0, V::Null, vec![]), 0),
+                2 => (command("publish", 0.0, V::Null, vec![amf::s("key"), amf::s("live")]), 1),
+                3 => (command("play", 0.0, V::Null, vec![amf::s("key")]), 1),
+                4 => (command("closeStream", 0.0, V::Null, vec![amf::num(1.0)]), 1),
+                5 => (command("deleteStream", 0.0, V::Null, vec![amf::num(1.0)]), 0),
+                _ => (command("FCPublish", 3.0, V::Null, vec![amf::s("key")]), 0),
+            }
+        };
+        let msg = Msg { type_id: m.type_id(), msid, ts: 0, data: m.body() };
+        self.enc.encode_simple(&msg, 3)
+    }
+
     /// one valid filler message the session tolerates in any state
     fn filler(&mut self, rng: &mut Rng, want: usize) -> Vec<u8> {
         // when a lot of bytes is needed, mostly large opaque messages (cheap to generate)
@@ -139,6 +169,12 @@ fn run_history_from(server: bool, prefix: Option<usize>, announcements: &[(usize
     // build the byte stream call by call: an announcement call starts with the window message
     let mut model = Model { w: None, outstanding: 0, fed_since_learned: 0, acked: 0 };
     let mut pending: Vec<u8> = Vec::new(); // bytes generated but not yet delivered
+    // a third of the histories that start from a protocol state also carry protocol traffic
+    let semantic = prefix.is_some() && rng.chance(1, 3);
+    let mut semantic_used = false;
+    if semantic {
+        out.count("histories_with_protocol_traffic", 1);
+    }
     let mut log: Vec<Value> = Vec::new();
     let witness = |log: &Vec<Value>| json!({"session": if server { "server" } else { "client" }, "prefix_state": prefix.map(|p| if server { super::sessprep::SERVER_STATES[p] } else { super::sessprep::CLIENT_STATES[p] }), "announcements(call,W)": announcements, "call_sizes": calls, "calls": log});
     for (ci, &n) in calls.iter().enumerate() {
@@ -154,7 +190,12 @@ fn run_history_from(server: bool, prefix: Option<usize>, announcements: &[(usize
         }
         let need = if ann.is_some() { n.max(pending.len()) } else { n };
         while pending.len() < need {
-            let f = h.filler(rng, need - pending.len());
+            let f = if semantic && rng.chance(1, 8) {
+                semantic_used = true;
+                h.semantic_filler(rng)
+            } else {
+                h.filler(rng, need - pending.len())
+            };
             pending.extend(f);
         }
         let piece: Vec<u8> = pending.drain(..need).collect();
@@ -183,6 +224,11 @@ fn run_history_from(server: bool, prefix: Option<usize>, announcements: &[(usize
             Err((loc, msg)) => {
                 out.violation(&panic_signature(&loc, &msg), json!({"panic_at": loc, "panic_message": msg, "history": witness(&log)}));
                 return false;
+            }
+            Ok(Err(_)) if semantic_used => {
+                // e.g. a refused createStream: the session reports it as an error by design
+                out.count("histories_ended_by_session_error_on_protocol_traffic", 1);
+                return true;
             }
             Ok(Err(e)) => {
                 out.violation("session-error-on-valid-filler-traffic", json!({"error": e, "history": witness(&log)}));
@@ -486,7 +532,7 @@ impl Check for C17 {
         out.sample(|| json!({"session": if server {"server"} else {"client"}, "prefix_state": prefix, "announcements(call,W)": ann, "call_sizes": calls}));
     }
     fn rule(&self) -> String {
-        "both session kinds; the peer stream is reference-encoded: WindowAcknowledgement(W) at the start of a chosen call followed by valid filler traffic (ping requests/responses, acknowledgements, stream-begin and the other user-control events, set-buffer-length, unknown type-22 messages, set-peer-bandwidth of all three limit types with sizes around typical windows, abort, set-chunk-size). Exhaustive: W = 1..64 x every call-size pattern of length 1..4 over {0, 1, W-1, W, W+1} x {server, client} (99,840 histories). Sampled (half of them starting from a session in one of 10 state classes per kind reached by a valid prefix without a window announcement, the client with its own configured window in {1, 100, 5000, 2.5M, 2^30}; first announcement in call 0-3): W from {1..64, 65..1000, 10^3..10^6, 2^24, 2^31, 2^32-1, 2.5M}, 2-40 calls with sizes from {0,1,W-1,W,W+1,2W+3,random} (capped at 100,000 bytes), window re-announcements mid-stream. Volume: W = 2^32-1 and (2^32-1) + 48 MiB bytes (thorough: 2 x (2^32-1) + 48 MiB) in 16 MiB calls for each session kind. The acknowledgements of every call are extracted by independently decoding the returned packets. distinct = (session kind, window class, #announcements, #calls).".to_string()
+        "both session kinds; the peer stream is reference-encoded: WindowAcknowledgement(W) at the start of a chosen call followed by valid filler traffic (ping requests/responses, acknowledgements, stream-begin and the other user-control events, set-buffer-length, unknown type-22 messages, set-peer-bandwidth of all three limit types with sizes around typical windows, abort, set-chunk-size). Exhaustive: W = 1..64 x every call-size pattern of length 1..4 over {0, 1, W-1, W, W+1} x {server, client} (99,840 histories). Sampled (half of them starting from a session in one of 10 state classes per kind reached by a valid prefix without a window announcement, the client with its own configured window in {1, 100, 5000, 2.5M, 2^30}; first announcement in call 0-3; a third of those also carry protocol traffic - answers to the client's requests with matching, stale and unknown transaction ids, status messages, a peer's connect/createStream/publish/play/closeStream/deleteStream - which may change the session's state but not its byte accounting): W from {1..64, 65..1000, 10^3..10^6, 2^24, 2^31, 2^32-1, 2.5M}, 2-40 calls with sizes from {0,1,W-1,W,W+1,2W+3,random} (capped at 100,000 bytes), window re-announcements mid-stream. Volume: W = 2^32-1 and (2^32-1) + 48 MiB bytes (thorough: 2 x (2^32-1) + 48 MiB) in 16 MiB calls for each session kind. The acknowledgements of every call are extracted by independently decoding the returned packets. distinct = (session kind, window class, #announcements, #calls).".to_string()
     }
     fn assumptions(&self) -> Vec<String> {
         vec![
@@ -503,6 +549,7 @@ impl Check for C17 {
             "exhaustive_small_window_patterns".into(),
             "window_reannouncements".into(),
             "histories_from_a_session_state_reached_by_a_prefix".into(),
+            "histories_with_protocol_traffic".into(),
             "volume_runs_ok".into(),
         ]
     }
